@@ -210,14 +210,16 @@ type c20Info struct {
 	OnMsgDuringSetup int32
 }
 
+var c20SyncOnce sync.Once
+
 func runC20(c c20Case) *vh.Outcome {
 	o := &vh.Outcome{}
 	info := &c20Info{}
 	o.Info = info
 	var injected, unsorted int32
-	old := threshold.SyncInterval
-	threshold.SyncInterval = 2 * time.Millisecond
-	defer func() { threshold.SyncInterval = old }()
+	// set once for the whole process and never restored: goroutines that a given-up Sign leaves behind may still read it when
+	// the case ends (restoring it per case was a write racing with those reads - a race of the harness's own making)
+	c20SyncOnce.Do(func() { threshold.SyncInterval = 2 * time.Millisecond })
 
 	all := u16s(seq(1, c.N))
 	net := newRTNet(int64(c.Seed), c.Jitter)
